@@ -443,3 +443,38 @@ def replay_known(name, witness):
         if H.spec_label(spec) == label:
             return _replay(spec, "shape" if mode == "shape" else mode)(witness)
     raise KeyError(label)
+
+
+# ------------------------------------------------------------------------------------------------ durations given as timedelta
+# Every duration parameter of the wait strategies is `int | float | timedelta`.  The documented delay of a strategy built with a timedelta is
+# the one of the same strategy built with that many seconds.
+from datetime import timedelta as _td  # noqa: E402
+
+from workflows.retry_policy import wait_exponential as _wexp, wait_fixed as _wfixed, wait_incrementing as _wincr  # noqa: E402
+
+_TD_DAYS = [0, 1, 2, -1]
+_TD_SECS = [0, 1, 30]
+_TD_US = [0, 500000]
+
+
+@obligation(quick=90, thorough=200, partitions_quick=[f"kind == {k}" for k in range(3)],
+            what="a wait strategy whose duration parameters are given as timedelta (days / seconds / microseconds components symbolic, negative "
+                 "included) documents and returns, for every attempt, the delay of the same strategy given the equal number of seconds",
+            bounds={"strategies": "wait_fixed / wait_incrementing(max=...) / wait_exponential(max=...)", "days": "-1..2", "seconds": "0, 1, 30",
+                    "microseconds": "0 / 500000", "attempts": "0..4"})
+def ob_timedelta_parameters(kind: int, di: int, si: int, ui: int, att: int) -> bool:
+    """
+    pre: 0 <= kind <= 2 and 0 <= di < len(_TD_DAYS) and 0 <= si < len(_TD_SECS) and 0 <= ui < len(_TD_US) and 0 <= att <= 4
+    post: _
+    """
+    kind, att = H.fork_int(kind, 0, 2), H.fork_int(att, 0, 4)
+    d, s, u = _TD_DAYS[H.fork_int(di, 0, len(_TD_DAYS) - 1)], _TD_SECS[H.fork_int(si, 0, len(_TD_SECS) - 1)], _TD_US[H.fork_int(ui, 0, len(_TD_US) - 1)]
+    as_td = _td(days=d, seconds=s, microseconds=u)
+    secs = d * 86400 + s + u / 1e6
+    if kind == 0:
+        a, b = _wfixed(as_td), _wfixed(secs)
+    elif kind == 1:
+        a, b = _wincr(start=1, increment=100000, max=as_td), _wincr(start=1, increment=100000, max=secs)
+    else:
+        a, b = _wexp(multiplier=1000, max=as_td), _wexp(multiplier=1000, max=secs)
+    return a(att) == b(att)
